@@ -60,6 +60,67 @@ def cel_arm_source(fx, inner):
     return None
 
 
+def otherwise_values(b, sw, pidx, limit=64):
+    """the values of parameter pidx that can take the `_` edge of the match in block sw: what the dominating tests leave of its range
+    (`if t >= 4 { return Err(..) }` before the match) minus the values the match lists.  None when the range is not bounded that way"""
+    lo, hi = 0, None
+    for op, l, r_ in q.facts_at(b, sw):
+        if not is_param(strip_casts(l), pidx):
+            continue
+        c = q.const_fold(r_) if hasattr(q, 'const_fold') else q.const_val(r_)
+        if not isinstance(c, int):
+            continue
+        if op == 'Lt':
+            hi = c - 1 if hi is None else min(hi, c - 1)
+        elif op == 'Le':
+            hi = c if hi is None else min(hi, c)
+        elif op == 'Ge':
+            lo = max(lo, c)
+        elif op == 'Gt':
+            lo = max(lo, c + 1)
+    if hi is None or hi - lo > limit:
+        return None
+    listed = {v for v, _ in b.blocks[sw]['term']['targets']}
+    return [v for v in range(lo, hi + 1) if v not in listed]
+
+
+def specialise(b, t, pidx, v):
+    """term t with its alternatives cut down to those that can arise when parameter pidx has the value v: an alternative produced by a
+    call whose block sits under a test of the parameter (`let compressed = t == 2; if compressed { from_compressed(..) } else
+    { from_raw(..) }`) is dropped when the test goes the other way for v"""
+    def consistent(x):
+        for y in walk(x):
+            if isinstance(y, tuple) and len(y) == 4 and y[0] == 'call' and isinstance(y[3], tuple) and y[3] and y[3][0] == b.name:
+                for cond, vals, a in q.guards(b, y[3][1]):
+                    ps = [z for z in walk(cond) if isinstance(z, tuple) and z and z[0] == 'param']
+                    if not ps or any(z[1] != pidx for z in ps):
+                        continue
+                    want = q.bool_outcome(b, a, vals)
+                    if want is None:
+                        continue
+                    try:
+                        got = q.eval_term(cond, {ps[0]: v})
+                    except q.CannotEval:
+                        continue
+                    if bool(got) != want:
+                        return False
+        return True
+
+    def go(x):
+        if not isinstance(x, tuple) or not x:
+            return x
+        if x[0] == 'any':
+            keep = [go(m) for m in x[1] if consistent(m)]
+            from terms import mk_any
+            return mk_any(keep) if keep else x
+        if x[0] == 'agg':
+            return ('agg', x[1], x[2], tuple((f, go(y)) for f, y in x[3]))
+        if x[0] in ('try',):
+            return (x[0], go(x[1]))
+        return x
+    return go(t)
+
+
 def variant_of(t):
     """variant name of the Ok payload a match arm produces"""
     t = q.payload(t) if q.is_ok_agg(t) else t
@@ -210,6 +271,21 @@ def matchers(ctx, bindings, only=None):
                     vn, inner = variant_of(a)
                     names.append((vn, inner))
             got[v] = names
+        # values that reach the `_` arm although they are table values: the range was cut by an earlier refusal and the arm tells them
+        # apart by later tests (`if t >= 4 {Err}; match t { 1 => .., 3 => .., _ => image cel, compressed iff t == 2 }`)
+        ov = otherwise_values(b, sws[0], pidx)
+        o_arm = tb['arms'].get(tb['otherwise'])
+        bounded_other = ov is not None and o_arm is not None and set(ov) <= set(table)
+        if bounded_other:
+            for v in ov:
+                names = []
+                for rt in o_arm['ret']:
+                    for a in alts(specialise(b, rt, pidx, v)):
+                        if q.is_err_term(a):
+                            continue
+                        vn, inner = variant_of(a)
+                        names.append((vn, specialise(b, inner, pidx, v)))
+                got[v] = names
         literal_arms += len(got)
         ok_set = set(got) == set(table)
         ctx.inst('T1', fn + '#set', ok_set, 'accepted values %s; supported set per spec %s'
@@ -224,7 +300,7 @@ def matchers(ctx, bindings, only=None):
                      tb['span'], key='%s|T1|%s' % (fn, v))
         # distinctness (no two codes produce the same variant unless the table says so)
         o = tb['otherwise']
-        ok = o not in tb['values'].values() and q.arm_always_err(b, o)
+        ok = (o not in tb['values'].values() and q.arm_always_err(b, o)) or bounded_other
         ctx.inst('T2', fn, ok, 'the `_` arm %s' % ('returns Err on every path' if ok else 'does NOT always return Err '
                  '(unknown values would be accepted)'), tb['span'], key=fn + '|T2|otherwise')
         # T3: callers
